@@ -60,7 +60,8 @@ PROFILES = {
                 # few files with few contents: a later commit often has the same snapshot as an earlier one
                 components=[b"f", b"g", b"h"], depths=[1, 1, 2], contents=[b"1\n", b"2\n", b""]),
     "C17": dict(tags={"index", "output", "exit"}, names={"add", "status", "reset", "restore"},
-                weights={"add": 22, "status": 10, "edit": 30, "reset": 4, "restore": 4, "commit": 6}, ignore=True),
+                weights={"add": 22, "status": 10, "edit": 30, "reset": 4, "restore": 4, "commit": 6}, ignore=True,
+                fd_conflicts=True),
     "C18": dict(tags=ALL_TAGS, names=None, weights={"hostile": 16}, p_invalid=0.15, fd_conflicts=True),
     "C20": dict(tags={"LCFG", "GCFG", "object", "exit"}, names={"config", "commit"},
                 weights={"config": 24, "commit": 10, "add": 10, "edit": 14}, identity=False),
@@ -69,14 +70,17 @@ for _p in ("C15", "C16", "C19"):
     PROFILES[_p] = dict(tags=ALL_TAGS, names=None, weights={})
 
 IGNORE_FILES = [b"out/\n", b"*.log\n", b"out/\n*.log\n", b"sub/\n", b"n.txt\n", b"src/out/\n*.txt\n",
-                b"out\n", b"sub\nlib.go\n", b"src\n", b"d e/\n*.log\n", b"k%s/\n", b"d e\n", b" d/\n", b"e /\n*.log\n"]
+                b"out\n", b"sub\nlib.go\n", b"src\n", b"d e/\n*.log\n", b"k%s/\n", b"d e\n", b" d/\n", b"e /\n*.log\n",
+                b"src/n.txt\n*.log\n", b"*.log\nout/a\n"]
 # the path components an ignore file talks about: they join the history's vocabulary, otherwise most
 # histories would never create a path the patterns apply to
 IGNORE_WORDS = {b"out/\n": [b"out"], b"*.log\n": [b"a.log", b"a.logx"], b"out/\n*.log\n": [b"out", b"a.log"],
                 b"sub/\n": [b"sub"], b"n.txt\n": [b"n.txt"], b"src/out/\n*.txt\n": [b"src", b"out", b"n.txt"],
                 b"out\n": [b"out", b"src"], b"sub\nlib.go\n": [b"sub", b"lib.go", b"lib"], b"src\n": [b"src", b"a"],
                 b"d e/\n*.log\n": [b"d e", b"a.log"], b"k%s/\n": [b"k%s"], b"d e\n": [b"d e", b"d"],
-                b" d/\n": [b" d", b"d"], b"e /\n*.log\n": [b"e ", b"a.log"]}
+                b" d/\n": [b" d", b"d"], b"e /\n*.log\n": [b"e ", b"a.log"],
+                b"src/n.txt\n*.log\n": [b"src", b"n.txt", b"n.txt.bak", b"nXtxt", b"a.log"],
+                b"*.log\nout/a\n": [b"a.log", b"out", b"a", b"ab"]}
 
 
 def relevant(prop, step, diff):
